@@ -764,7 +764,7 @@ EFFECT_VERSION = "effects-v4 unwind14+harness-loops default-checks"
 # loops of the harness itself (construction of the symbolic state) get their own bounds
 HARNESS_LOOPS = ["main.%d:40" % i for i in range(4)] + ["c05_env.%d:70" % i for i in range(14)] + \
                 ["c05_engine_env.%d:70" % i for i in range(8)] + ["c05_init_symbolic.%d:40" % i for i in range(48)] + \
-                ["c05_anchor.%d:70" % i for i in range(2)] + ["c05_pkey_setup.%d:12" % i for i in range(3)]
+                ["c05_anchor.%d:70" % i for i in range(2)] + ["c05_pkey_setup.%d:70" % i for i in range(3)]
 
 
 def _harness_hash(prog=None):
@@ -918,6 +918,7 @@ def native_effects(prog, jobs=None, force=False):
     if os.path.exists(cache) and not force:
         d = json.load(open(cache))
         return {int(k): Effect(*v) for k, v in d.items()}
+    gen_preconditions(prog, None, refine=False)      # refresh the call-site facts used in measurement mode
     wd = tempfile.mkdtemp(prefix="t0eff-", dir=BUILD)
     from concurrent.futures import ThreadPoolExecutor
     try:
